@@ -6,6 +6,7 @@ import Clemens.Model.UciParse
 import Clemens.Model.EvalCache
 import Clemens.Spec.FideSee
 import Clemens.Spec.Mirror
+import Clemens.Model.Uci
 /- evaluation, SEE, TT, ordering, time and parser operations of the line protocol -/
 namespace Driver
 open Clemens
@@ -121,9 +122,95 @@ def opGo (args : List String) : String :=
   | some (sp, msgs) => s!"m.res=ok m.sp={spStr sp} m.msgs={if msgs.isEmpty then "-" else ";".intercalate (msgs.map msgStr)}"
   | none => "m.res=panic"
 
+/-- `gof <expected> <n> <tokenhex>…`: like `go`, the expectation is judged on the Go side -/
+def opGof (args : List String) : String := opGo (args.drop 2)
+
 /-- `prep <tokenhex>…`: removePrefixGarbage on the fields of a line -/
 def opPrep (args : List String) : String :=
   let r := removePrefixGarbage (args.map unhexBytes)
   s!"m.tokens={if r.isEmpty then "-" else ",".intercalate (r.map bytesToHex)}"
 
+end Driver
+
+namespace Driver
+open Clemens
+
+/-- `hashdiff <fenhex> <fenhex>` -/
+def opHashdiff (args : List String) : String :=
+  match args with
+  | [a, b] =>
+    match parsePos a, parsePos b with
+    | .ok p, .ok q => s!"m.h1={hex64 p.hash} m.h2={hex64 q.hash}"
+    | _, _ => "m.res=badpos"
+  | _ => "bad-op"
+
+/-- `ecache s:hash:score g:hash …`: the evaluation cache table driven directly -/
+def opEcache (args : List String) : String :=
+  let (_, outs) := args.foldl (fun (acc : EvalCache × List String) a =>
+    let (c, outs) := acc
+    match a.splitOn ":" with
+    | ["s", h, sc] => ({ entries := c.entries.insert ((parseBB h).toNat % Gen.evalCacheSize) (parseBB h, parseInt sc) }, outs)
+    | ["g", h] =>
+      let e := c.slot (parseBB h)
+      (c, s!"{e.2}/{boolStr (e.1 == parseBB h)}" :: outs)
+    | _ => (c, "bad" :: outs)) (({} : EvalCache), [])
+  s!"m.out={if outs.isEmpty then "-" else ";".intercalate outs.reverse}"
+
+/-- `dialog <linehex>…`: sequential UCI dialogue -/
+def opDialog (args : List String) : String :=
+  let r := args.foldl (fun (acc : Option (GameSt × List String)) lh =>
+    match acc with
+    | none => none
+    | some (st, outs) =>
+      let line := bytesToString (unhexBytes lh)
+      let toks := removePrefixGarbage (((line.splitOn " ").filter (· ≠ "")).map stringToBytes)
+      match toks with
+      | [] => some (st, outs)
+      | c :: rest =>
+        let cmd := bytesToString c
+        let restS := rest.map bytesToString
+        let (pa, movesOk) : PosArgs × Bool :=
+          if cmd ≠ "position" then (.empty, true) else
+          match restS with
+          | [] => (.empty, true)
+          | "startpos" :: more =>
+            let mv := match more with | "moves" :: ms => if more.length ≤ 1 then [] else ms | _ => []
+            let ok := match setupGameD "startpos" mv with | true => true | false => false
+            (.startpos, ok)
+          | "fen" :: more =>
+            if more.length < 6 then (.fenShort, true) else
+            let fen := " ".intercalate (more.take 6)
+            match parseFen K (stringToBytes fen) with
+            | .ok _ =>
+              let after := more.drop 6
+              let mv := match after with | "moves" :: ms => if after.length ≤ 1 then [] else ms | _ => []
+              (.fenOk, setupGameD (bytesToHex (stringToBytes fen)) mv)
+            | _ => (.fenBroken, true)
+          | _ => (.other, true)
+        let goMsgs := if cmd = "go" then (match parseGo atoiFull rest with | some (_, m) => m.length | none => 0) else 0
+        match dialogStep st cmd pa movesOk goMsgs with
+        | some (st', evs) => some (st', outs ++ evs.map Ev.str)
+        | none => none) (some (({} : GameSt), []))
+  match r with
+  | some (_, outs) => s!"m.out={if outs.isEmpty then "-" else "".intercalate outs}"
+  | none => "m.out=PANIC"
+where
+  setupGameD (posArg : String) (moves : List String) : Bool :=
+    match parsePos posArg with
+    | .ok p0 =>
+      (moves.foldl (fun (acc : Option Pos) mv => acc.bind fun p =>
+        match makeMoveFromString K p (stringToBytes mv) with
+        | .ok q => some q
+        | _ => none) (some p0)).isSome
+    | _ => false
+
+end Driver
+
+namespace Driver
+/-- `conc <script>`: by the dialogue rule every go of the script is accepted, so the expected counts are the
+numbers of go and isready commands sent -/
+def opConc (args : List String) : String :=
+  let gos := (args.filter fun t => t.startsWith "G").length
+  let readys := (args.filter (· = "R")).length
+  s!"m.out=b{gos},r{readys}"
 end Driver
